@@ -85,37 +85,45 @@ partial def encTree : Tree → String
       toString p.attrs.length] ++ attrs ++ ks.map encTree ++ [")"]
     " ".intercalate parts
 
+def encPath (p : Path) : String := encStr (some (printPath p))
+
+/-- A path string of the generated subset; anything else makes the request `bad-op`. -/
+def decPath (tok : String) : Option Path :=
+  match decStr tok with
+  | some (some s) => parsePath s
+  | _ => none
+
 def encAction : Action → String
-  | .deleteNode n => s!"del,{encStr n}"
-  | .insertNode t g p => s!"ins,{encStr t},{encStr g},{p}"
-  | .renameNode n g => s!"ren,{encStr n},{encStr g}"
-  | .moveNode n t p => s!"mov,{encStr n},{encStr t},{p}"
-  | .updateTextIn n t => s!"txt,{encStr n},{encStr t}"
-  | .updateTextAfter n t => s!"tail,{encStr n},{encStr t}"
-  | .updateAttrib n k v => s!"upa,{encStr n},{encStr k},{encStr v}"
-  | .deleteAttrib n k => s!"dela,{encStr n},{encStr k}"
-  | .insertAttrib n k v => s!"insa,{encStr n},{encStr k},{encStr v}"
-  | .renameAttrib n a b => s!"rena,{encStr n},{encStr a},{encStr b}"
-  | .insertComment t p x => s!"insc,{encStr t},{p},{encStr x}"
+  | .deleteNode n => s!"del,{encPath n}"
+  | .insertNode t g p => s!"ins,{encPath t},{encStr g},{p}"
+  | .renameNode n g => s!"ren,{encPath n},{encStr g}"
+  | .moveNode n t p => s!"mov,{encPath n},{encPath t},{p}"
+  | .updateTextIn n t => s!"txt,{encPath n},{encStr t}"
+  | .updateTextAfter n t => s!"tail,{encPath n},{encStr t}"
+  | .updateAttrib n k v => s!"upa,{encPath n},{encStr k},{encStr v}"
+  | .deleteAttrib n k => s!"dela,{encPath n},{encStr k}"
+  | .insertAttrib n k v => s!"insa,{encPath n},{encStr k},{encStr v}"
+  | .renameAttrib n a b => s!"rena,{encPath n},{encStr a},{encStr b}"
+  | .insertComment t p x => s!"insc,{encPath t},{p},{encStr x}"
   | .insertNamespace p u => s!"insns,{encStr p},{encStr u}"
   | .deleteNamespace p => s!"delns,{encStr p}"
 
 def decAction (s : String) : Option Action :=
   match s.splitOn "," with
-  | ["del", n] => some (.deleteNode (decStr! n))
-  | ["ins", t, g, p] => p.toNat?.map (.insertNode (decStr! t) (decStr! g))
-  | ["ren", n, g] => some (.renameNode (decStr! n) (decStr! g))
-  | ["mov", n, t, p] => p.toNat?.map (.moveNode (decStr! n) (decStr! t))
-  | ["txt", n, t] => (decStr t).map (.updateTextIn (decStr! n))
-  | ["tail", n, t] => (decStr t).map (.updateTextAfter (decStr! n))
-  | ["upa", n, k, v] => some (.updateAttrib (decStr! n) (decStr! k) (decStr! v))
-  | ["dela", n, k] => some (.deleteAttrib (decStr! n) (decStr! k))
-  | ["insa", n, k, v] => some (.insertAttrib (decStr! n) (decStr! k) (decStr! v))
-  | ["rena", n, a, b] => some (.renameAttrib (decStr! n) (decStr! a) (decStr! b))
+  | ["del", n] => (decPath n).map .deleteNode
+  | ["ins", t, g, p] => do pure (.insertNode (← decPath t) (decStr! g) (← p.toNat?))
+  | ["ren", n, g] => do pure (.renameNode (← decPath n) (decStr! g))
+  | ["mov", n, t, p] => do pure (.moveNode (← decPath n) (← decPath t) (← p.toNat?))
+  | ["txt", n, t] => do pure (.updateTextIn (← decPath n) (← decStr t))
+  | ["tail", n, t] => do pure (.updateTextAfter (← decPath n) (← decStr t))
+  | ["upa", n, k, v] => do pure (.updateAttrib (← decPath n) (decStr! k) (decStr! v))
+  | ["dela", n, k] => do pure (.deleteAttrib (← decPath n) (decStr! k))
+  | ["insa", n, k, v] => do pure (.insertAttrib (← decPath n) (decStr! k) (decStr! v))
+  | ["rena", n, a, b] => do pure (.renameAttrib (← decPath n) (decStr! a) (decStr! b))
   | ["insc", t, p, x] => do
     let pos ← p.toNat?
     let txt ← decStr x
-    pure (.insertComment (decStr! t) pos txt)
+    pure (.insertComment (← decPath t) pos txt)
   | ["insns", p, u] => some (.insertNamespace (decStr! p) (decStr! u))
   | ["delns", p] => some (.deleteNamespace (decStr! p))
   | _ => none
